@@ -567,7 +567,7 @@ func (ld *Loaded) genStub(lp *LPkg) (string, error) {
 			}
 			body.WriteString("\treturn\n}\n")
 		}
-		if len(fc.Ensures) > 0 {
+		if len(fc.Ensures)+len(fc.Assumes) > 0 {
 			_, pdr := u.sigParams(qual, true)
 			if ifaceT != nil {
 				pdr = append([]string{"_vcrecv " + types.TypeString(ifaceT, qual)}, pdr...)
@@ -575,7 +575,7 @@ func (ld *Loaded) genStub(lp *LPkg) (string, error) {
 			for i := range pdr {
 				pdr[i] = strings.Replace(pdr[i], " ...", " []", 1)
 			}
-			emit("post", strings.Join(pdr, ", ")+oldDecl, fc.Ensures, "")
+			emit("post", strings.Join(pdr, ", ")+oldDecl, append(append([]Clause{}, fc.Ensures...), fc.Assumes...), "")
 		}
 		// loops
 		for _, lc := range fc.Loops {
